@@ -239,3 +239,54 @@ m('append-moves-node', 'callbacklist.h', """			tail->next = node;
 m('eq-remove-helper-lock-first', 'utilities/scopedremover.h', """	auto handlePointer = handle.lock();
 	std::unique_lock<Mutex> lock(mutex);""", """	std::unique_lock<Mutex> lock(mutex);
 	auto handlePointer = handle.lock();""", 'C15,C09', 'silent')
+
+
+# ---------------- eventutil helper rules, both ways (round 3) ------------------------------------------
+U = 'utilities/eventutil.h'
+m('util-remove-continues', U, """				callbackList.remove(handle);
+				return false;""", """				callbackList.remove(handle);
+				return true;""", 'C01', 'fire', 'C01.H')
+m('eq-util-hasany-continues', U, """		found = true;
+		return false;
+	}
+	);
+
+	return found;""", """		found = true;
+		return true;
+	}
+	);
+
+	return found;""", 'C01', 'silent')
+m('eq-util-remove-found-from-result', U, """				found = true;
+				dispatcher.removeListener(event, handle);
+				return false;""", """				found = dispatcher.removeListener(event, handle);
+				return ! found;""", 'C01', 'silent')
+_HAS_OLD = """			if(item == listener) {
+				found = true;
+				return false;
+			}
+			else {
+				return true;
+			}
+		}
+	);
+
+	return found;"""
+m('util-has-stops-early', U, _HAS_OLD, """			if(item == listener) {
+				found = true;
+			}
+			return false;
+		}
+	);
+
+	return found;""", 'C01', 'fire', 'C01.H')
+m('util-has-found-always', U, _HAS_OLD, """			found = true;
+			return !(item == listener);
+		}
+	);
+
+	return found;""", 'C01', 'fire', 'C01.H')
+
+# each site of seeded C04-m5 alone is behaviour-preserving (the combination aliases a parameter that is then moved)
+mp('eq-c04-const-ref-event', 'eq-c04-const-ref-event.diff', 'C04,C05,C20', 'silent')
+mp('eq-c04-getevent-returns-ref', 'eq-c04-getevent-returns-ref.diff', 'C04,C05,C20', 'silent')
